@@ -36,6 +36,7 @@ func checkC10(c *Ctx, r *Report) {
 	c10Arg(c, r, a)
 	c10Req(c, r, a, "C10.REQ")
 	c10ArgFrozen(c, r, a)
+	importRulesFrom(c, r, "C04", func(c *Ctx, sub *Report) { c04Arms(c, sub, a) }, "C10.REQVAR", "a required argument given as a variable is only refused through the coercion of the variable's value to the argument's declared type (NonNull.CoerceIn of nil): the substitution arm for variables coerces on every path on which a declared type exists (C04.ARMS)", "C04.ARMS")
 	c10Dirs(c, r)
 	c10Cond(c, r)
 	c10Pre(c, r, a, "C10.PRE")
